@@ -869,7 +869,7 @@ def gen(rng, tier):
                 specs[(i + 1) % len(specs)]['exc'] = rng.choice(EXC_CLASSES)
             cases.append({'clauses': clauses, 'queries': queries, 'dyn': dt, 'native': specs})
     # one predicate defined from mixed sources (register_function / load_script overwrite or not / assert_fact in every order)
-    for _ in range(70 if tier == 'quick' else 1200):
+    for _ in range(70 if tier == 'quick' else 1000):
         cases.append(gen_mixed(rng))
     return cases
 
